@@ -55,19 +55,33 @@ def check(ctx):
         iv = head.ast.left.id if isinstance(head.ast.left, ast.Name) else head.ast.comparators[0].id
         entry = f'self._waiting_requests[{iv}]'
 
+        from ..norm import single_defs
+        defs = single_defs(fn)
+
+        def rs(e, depth=0):
+            """text of e with single-definition locals (e.g. `request, callback = self._waiting_requests[i]`) substituted"""
+            if isinstance(e, ast.Name) and e.id in defs and e.id != iv and depth < 5:
+                return rs(defs[e.id], depth + 1)
+            if isinstance(e, ast.Subscript):
+                return f'{rs(e.value, depth)}[{ast.unparse(e.slice)}]'
+            return ast.unparse(e)
+
         def classify(node, lbl):
             if node.kind == 'cond' and isinstance(node.ast, ast.Call) and call_attr(node.ast) == '_can_fulfill_request':
-                arg = ast.unparse(node.ast.args[0]) if node.ast.args else ''
+                arg = rs(node.ast.args[0]) if node.ast.args else ''
                 return ('test', lbl, arg == f'{entry}[0]')
             if node.kind == 'stmt':
                 for cl in calls_at(g, node):
-                    if isinstance(cl.func, ast.Subscript) and ast.unparse(cl.func).startswith('self._waiting_requests'):
-                        good = ast.unparse(cl.func) == f'{entry}[1]' and [ast.unparse(a) for a in cl.args] == ['self', f'{entry}[0]']
+                    ft = rs(cl.func) if isinstance(cl.func, (ast.Subscript, ast.Name)) else ''
+                    if ft.startswith('self._waiting_requests'):
+                        good = ft == f'{entry}[1]' and [rs(a) for a in cl.args] == ['self', f'{entry}[0]'] and not cl.keywords
                         return ('cb', good)
                 s = node.src().replace(' ', '')
                 if s in (f'self._waiting_requests.pop({iv})', f'delself._waiting_requests[{iv}]'):
                     return ('rm',)
                 if isinstance(node.ast, ast.AugAssign) and isinstance(node.ast.target, ast.Name) and node.ast.target.id == iv:
+                    return ('inc',)
+                if isinstance(node.ast, ast.Assign) and any(isinstance(t, ast.Name) and t.id == iv for t in node.ast.targets):
                     return ('inc',)
             return None
         paths = dv.loop_body_paths(g, head)
@@ -116,6 +130,12 @@ def check(ctx):
                 f = s.func
                 rq, cb = f.args.args[1].arg, f.args.args[2].arg
                 a = role[2].args[0] if role[2].args else None
+                from ..norm import single_defs as _sd
+                d_ = _sd(f)
+                if isinstance(a, ast.Name) and a.id in d_:
+                    a = d_[a.id]
+                if isinstance(a, ast.Tuple) and len(a.elts) == 2 and isinstance(a.elts[0], ast.Name) and a.elts[0].id in d_:
+                    a = ast.Tuple(elts=[d_[a.elts[0].id], a.elts[1]], ctx=ast.Load())
                 if not (isinstance(a, ast.Tuple) and len(a.elts) == 2 and ast.unparse(a.elts[0]) in (f'copy.deepcopy({rq})', f'deepcopy({rq})') and ast.unparse(a.elts[1]) == cb):
                     bad = 'a waiting entry must be (deep copy of the request, callback)'
                 else:
